@@ -1,6 +1,7 @@
 package main
 
 import (
+	"go/token"
 	"go/ast"
 	"os"
 	"runtime/debug"
@@ -345,6 +346,30 @@ func (x *Exec) frameEnv(f *Frame, st *State, header *ssa.BasicBlock) *Env {
 				env.vars[name] = val
 			} else if c, ok := v.(*ssa.Const); ok {
 				env.vars[name] = x.constVal(c)
+			}
+		}
+		// the list a range loop walks: rangeover (innermost loop at hand) / rangeover_k (loop with ordinal k) - the
+		// operand of the len() the loop index is compared with; lets an invariant talk about an unnamed list such as
+		// the result of a call ranged over directly
+		for hb, k := range g.loops {
+			for _, ins := range hb.Instrs {
+				bo, ok := ins.(*ssa.BinOp)
+				if !ok || bo.Op != token.LSS {
+					continue
+				}
+				call, ok := bo.Y.(*ssa.Call)
+				if !ok {
+					continue
+				}
+				if b, isB := call.Call.Value.(*ssa.Builtin); !isB || b.Name() != "len" || len(call.Call.Args) != 1 {
+					continue
+				}
+				if val, ok := g.regs[call.Call.Args[0]]; ok {
+					env.vars[fmt.Sprintf("rangeover_%d", k)] = val
+					if g == f && hb == header {
+						env.vars["rangeover"] = val
+					}
+				}
 			}
 		}
 		for v, val := range g.regs {
